@@ -491,7 +491,7 @@ def leg_converter(items, report):
                 both_nan = type(value) is float and type(out.extra) is float and value != value and out.extra != out.extra
                 ok = (out.a == 1 and (out.extra is value or both_nan or (type(out.extra) is type(value) and out.extra == value
                                                                          and repr(out.extra) == repr(value)))
-                      and inspect.signature(conv) == inspect.signature(stub))
+                      and (inspect.signature(conv) == inspect.signature(stub) or (both_nan and str(inspect.signature(conv)) == str(inspect.signature(stub)))))
             elif kind == "model_default":
                 try:
                     cls = dataclasses.make_dataclass("M", [("a", int), ("b", Any, dataclasses.field(default=value))])
